@@ -298,6 +298,56 @@ def reply_packets(chk, rng, n):
     chk.compare("reply packets (OK / EOF / ERR / column definition) = Mimic.Reply, and decodable by the specification decoder", inputs, out, impl)
 
 
+async def wide_responses(chk, rng, n):
+    """responses with packets around and above the stream's buffer threshold: still one complete response whose
+    sequence ids count up from 1 and whose rows arrive in order (text protocol, binary protocol, cursor fetch)"""
+    from lib import Peer, RecSession, mkserver, decode_resultset, decode_text_row, decode_binary_row, com_stmt_execute, C as Caps
+    from mysql_mimic import ResultColumn, ColumnType
+    import struct as _st
+    for i in range(n):
+        dep = rng.random() < 0.5
+        caps = int(BASE) | (int(Caps.CLIENT_DEPRECATE_EOF) if dep else 0)
+        widths = [rng.choice([1, 10, 200, 5000, 32700, 32760, 32764, 32768, 33000, 40000, 70000]) for _ in range(rng.randrange(1, 7))]
+        rows = [("%d:" % k + "x" * w,) for k, w in enumerate(widths)]
+        sess = RecSession(behaviour=lambda se, e, sql, at: (list(rows), [ResultColumn("a", ColumnType.VARCHAR)]))
+        srv = mkserver([sess])
+        a = Peer(srv)
+        await a.login(caps=caps)
+        mode = rng.choice(["text", "binary", "fetch"])
+        desc = dict(mode=mode, deprecate_eof=dep, widths=widths)
+        chk.count("wide:" + mode)
+        chk.case(("wide", mode, tuple(widths), dep))
+        outs = []
+        if mode == "text":
+            outs.append((await a.cmd(b"\x03select a from t", n=120), "text"))
+        else:
+            o = await a.cmd(b"\x16select a from t")
+            sid = _st.unpack_from("<I", o[0][1], 1)[0]
+            if mode == "binary":
+                outs.append((await a.cmd(com_stmt_execute(sid, [], caps=a.caps, flags=0), n=120), "binary"))
+            else:
+                await a.cmd(com_stmt_execute(sid, [], caps=a.caps, flags=1), n=60)
+                outs.append((await a.cmd(b"\x1c" + _st.pack("<II", sid, len(rows) + 1), n=120), "fetch"))
+        for out, kind in outs:
+            seqs = [q for q, _ in out]
+            if seqs != [(k + 1) % 256 for k in range(len(seqs))]:
+                chk.fail("sequence ids of a response do not count up from the command's own", desc, seqs[:12])
+                continue
+            try:
+                pk = [p for _, p in out]
+                if kind == "fetch":
+                    got = [decode_binary_row(p, [253])[0] for p in pk[:-1]]
+                else:
+                    rs = decode_resultset(pk, a.caps)
+                    got = [decode_text_row(r, 1)[0] if kind == "text" else decode_binary_row(r, [253])[0] for r in rs["rows"]]
+                got = [g.decode() if isinstance(g, (bytes, bytearray)) else g for g in got]
+                if got != [r[0] for r in rows]:
+                    chk.fail("rows of a response with large packets arrive changed or out of order", desc, [str(g)[:12] for g in got])
+            except Exception as e:  # noqa
+                chk.fail("response with large packets is not a well-formed result set", desc, repr(e)[:300])
+        await a.finish()
+
+
 def main():
     chk = Check("C03", sys.argv[1:])
     chk.rule = ("random command programs (1-12 commands over QUERY, PING, RESET_CONNECTION, DEBUG, INIT_DB, FIELD_LIST, STMT_PREPARE / "
@@ -316,6 +366,7 @@ def main():
             await run_program(chk, rng, lines, impl)
         for k in range(6 if not chk.thorough else 100):
             await run_program(chk, rng, lines, impl, big=True)
+        await wide_responses(chk, rng, 12 if not chk.thorough else 200)
 
     asyncio.run(go())
     reply_packets(chk, rng, 400 if not chk.thorough else 6000)
